@@ -161,19 +161,23 @@ func (op *chunkOperator) UnloadChunk(chunkRef *base.LogChunk) bool {
 		return false
 	}
 
-	if op.metrics.persistentChunkBytes.Get()+int64(len(chunkRef.Data)) > op.maxTotalBytes {
+	// reserve the space before writing: chunks are saved from several goroutines at once (Accept on the pipeline side,
+	// OnChunkLeftover on the output side), a check followed by a later addition would let two of them pass the limit together
+	size := int64(len(chunkRef.Data))
+	if op.metrics.persistentChunkBytes.Add(size) > op.maxTotalBytes {
+		op.metrics.persistentChunkBytes.Sub(size)
 		op.logger.Warnf("cannot write chunk file id=%s: space limit reached", chunkRef.ID)
 		return false
 	}
 
 	if werr := util.WriteFileAt(op.maybeDir, chunkRef.ID, chunkRef.Data, 0o644); werr != nil {
+		op.metrics.persistentChunkBytes.Sub(size)
 		op.metrics.ioErrorsTotal.Inc()
 		op.logger.Errorf("error writing chunk id=%s: %s", chunkRef.ID, werr.Error())
 		return false
 	}
 
 	op.metrics.persistentChunks.Inc()
-	op.metrics.persistentChunkBytes.Add(int64(len(chunkRef.Data)))
 	chunkRef.Data = nil
 	chunkRef.Saved = true
 	return true
